@@ -48,13 +48,13 @@ package ucon
 
 // Clause 4 (binding): the VRF message is the 40-byte string seed ‖ be32(role) ‖ be32(index): distinct (seed, role, index)
 // give distinct messages.
-//@ func uint32ToBytes props C04
+//@ func uint32ToBytes props C04, C01
 //@ panics none
 //@ modifies nothing
 //@ ensures [be32] fresh(result) && len(result) == 4 &&
 //@         result[0] == i / 2^24 && result[1] == (i / 2^16) % 256 && result[2] == (i / 2^8) % 256 && result[3] == i % 256
 
-//@ func MakeM props C04
+//@ func MakeM props C04, C01
 //@ panics none
 //@ modifies nothing
 //@ ensures [len]   fresh(result) && len(result) == 40
